@@ -498,7 +498,7 @@ def r03_4(ctx):
                     construct=f'{fn.qname}::raises')
 
 
-def r03_5(ctx):
+def r03_5(ctx, parts=('dict', 'str', 'iadd')):
     """from_dict / from_str funnel into the checked constructor; SysexData += checks."""
     base = ctx.p.cls(MSG, 'Message')
     o, fd = ctx.p.lookup_method(base, 'from_dict')
@@ -523,7 +523,7 @@ def r03_5(ctx):
              ('note None', dict(good, note=None), ('TypeError',)), ('time None', dict(good, time=None), ('TypeError',)),
              ('unknown attribute None', dict(good, zzz=None), ('ValueError', 'TypeError', 'AttributeError')),
              ('sysex data None', {'type': 'sysex', 'data': None}, ('TypeError',))]
-    for label, d, excs in cases:
+    for label, d, excs in (cases if 'dict' in parts else ()):
         outs = ai.explore(lambda: ai.call_function(fd, [ClassRef(base), ADict(dict(d))], {}))
         ctx.call_sites += 1
         if excs is None:
@@ -540,7 +540,8 @@ def r03_5(ctx):
                               # the text of an integer attribute is an integer: nothing is rounded, truncated or pulled back into range
                               ('a fraction for an integer', 'note_on note=60.5', ('ValueError',)), ('just beyond the limit', 'note_on note=127.9', ('ValueError',)),
                               ('just below zero', 'note_on channel=-0.5', ('ValueError',)), ('infinity', 'note_on note=inf', ('ValueError',)),
-                              ('an exponent', 'note_on note=1e1', ('ValueError',))):
+                              ('an exponent', 'note_on note=1e1', ('ValueError',)), ('an overflowing exponent', 'note_on note=1e999', ('ValueError',)),
+                              ('minus infinity', 'note_on velocity=-inf', ('ValueError',)), ('not a number', 'note_on note=nan', ('ValueError',))) if 'str' in parts else ():
         outs = ai.explore(lambda: ai.call_function(fs, [ClassRef(base), text], {}))
         ctx.call_sites += 1
         if excs is None:
@@ -554,6 +555,8 @@ def r03_5(ctx):
     for q in ai.inlined:
         ctx.functions.add(q)
     # writes to message state inside from_str/from_dict are forbidden (handled by R03.1 scan)
+    if 'iadd' not in parts:
+        return
     sd = ctx.p.cls(MSG, 'SysexData')
     ia = sd.methods.get('__iadd__')
     if ia is None:
